@@ -51,6 +51,10 @@ def main():
     r = copy.deepcopy(lrec); st = next(s for s in r['stages'] if s['stage'] == 'lattice')
     st['elems'][0]['fill'] = 3 if st['elems'][0]['fill'] != 3 else 2
     lvariants['one element of the lattice stage filled with another universe'] = r
+    r = copy.deepcopy(lrec); st = next(s for s in r['stages'] if s['stage'] == 'parsed'); st['pcells'][2]['u'] = 7
+    lvariants['universe of one parsed cell altered'] = r
+    r = copy.deepcopy(lrec); st = next(s for s in r['stages'] if s['stage'] == 'parsed'); st['pcells'][2]['univs'][0] = 3 if st['pcells'][2]['univs'][0] != 3 else 2
+    lvariants['one entry of the parsed FILL array altered'] = r
     for name, r in lvariants.items():
         v = pipeline.validate(chk, [dict(r, tid=1)], {1: ld})[1]
         print('%-60s -> %s' % (name, sorted(map(tuple, v['bad'])) or 'accepted'))
